@@ -276,6 +276,7 @@ def h_reference(env, n_mos, ne, spin, frozen, mapping, utd):
 AUX_MOLS = {
     "H4_singlet": dict(xyz="H4", q=0, spin=0, frozen=None, uhf=False),
     "H4_triplet_fv3": dict(xyz="H4", q=0, spin=2, frozen=[3], uhf=False),
+    "H4_triplet": dict(xyz="H4", q=0, spin=2, frozen=None, uhf=False),
     "H4+_doublet_fo0": dict(xyz="H4", q=1, spin=1, frozen=[0], uhf=False),
     "H4_interior_f1": dict(xyz="H4", q=0, spin=0, frozen=[1], uhf=False),
     "LiH_triplet_fo0": dict(xyz="LiH", q=0, spin=2, frozen=[0], uhf=False),
